@@ -133,6 +133,41 @@ def build_cfg(sim, scenario):
     return {"W": W, "S": d.number_of_steps, "cols": cols, "workerOf": worker_of, "clientsOf": clients_of}
 
 
+def check_cfg_of_alloc(ctx, sc, cfg):
+    """the configuration the real Driver hands to its workers (read off ClientAllocations) against RaceOfAlloc.cfgOf,
+    the configuration the Lean development derives from the allocator model (C02) — the link between the two models"""
+    tidx, _, spec = task_index(sc)
+    sched = []
+    for e in sc["schedule"]:
+        ts = [e["leaf"]] if "leaf" in e else e["par"]
+        sched.append({"clients": None if "leaf" in e else e.get("clients"),
+                      "tasks": [{"id": tidx[t["name"]], "clients": t["clients"], "cp": bool(t.get("cp")), "acp": bool(t.get("acp"))} for t in ts]})
+    hosts = [{"name": i, "cores": sc["cores"]} for i, _ in enumerate(sc["hosts"])]
+    finite = [tidx[n] for n, t in spec.items() if not t.get("eternal", False)]
+    m = ctx.model("race", "cfgof", {"schedule": sched, "hosts": hosts, "finite": finite})["r"]
+    elems, joins = [], None
+    for row in cfg["cols"]:
+        per_elem, cur, js, seen_first = [], [], [], False
+        for col in row:
+            if col is None:
+                continue
+            if "join" in col:
+                if seen_first:
+                    per_elem.append(cur)
+                cur, seen_first = [], True
+                js.append([col["completing"], col["any"]])
+            else:
+                cur.append(col["tasks"])
+        elems.append(per_elem)
+        joins = joins or js
+    impl = {"W": cfg["W"], "S": cfg["S"], "elems": elems, "joins": joins, "workerOf": cfg["workerOf"], "clientsOf": cfg["clientsOf"]}
+    for k in ("W", "S", "clientsOf", "workerOf", "joins", "elems"):
+        if m[k] != impl[k]:
+            ctx.diff("race configuration derived from the allocator model: " + k, m[k], impl[k])
+            break
+    ctx.count("cfg-of-alloc-compared")
+
+
 def canon_out(out, tidx):
     from esrally.driver import driver
 
@@ -312,6 +347,7 @@ def run(ctx, case):
     tags = []
     if d.allocations is not None and sim.actors["driver"].inst.driver.workers:
         cfg = build_cfg(sim, sc)
+        check_cfg_of_alloc(ctx, sc, cfg)
         evs = to_model_events(sim, sc, cfg)
         un = [e for e in evs if e["e"] == "UNMODELLED"]
         if un:
